@@ -9,7 +9,8 @@ per-datagram working counters 0/1 and colliding frame indices.
 import asyncio
 import itertools
 
-from mc import core, ecparse, explore, vloop
+from mc import core, ecparse, explore, stallguard, vloop
+from mc.stallguard import Stall
 
 import ebpfcat.ethercat as ecmod
 from ebpfcat.ethercat import ECCmd, EtherCat, EtherCatError
@@ -26,10 +27,6 @@ RULE = ("workloads (1-3 requests, payload sizes from the alphabet, how many "
 SIZES = [2, 700, 1400, 1472, 1473]
 KF_STALL = "C12-oversize-request-stalls-sendloop"
 KF_INVALID = "C12-cancelled-request-wkc0-poisons-frame"
-
-
-class Stall(KeyboardInterrupt):
-    pass
 
 
 def payload(j, n):
@@ -71,6 +68,10 @@ def execute(ch, workload):
     saved_randint = ecmod.randint
     tp = Transport()
     tp.ch = ch
+    guard = execute.guard
+    if guard is None:
+        guard = execute.guard = stallguard.StallGuard(
+            [EtherCat.sendloop, EtherCat.process_packet], budget=20000)
     with loop:
         ec = EtherCat("sim")
         ec.send_queue = asyncio.Queue()
@@ -139,6 +140,7 @@ def execute(ch, workload):
                     opts = [first] + [e for e in evs if e != first]
                 ev = opts[ch.choose(len(opts), "event")]
                 tp.burst = 0
+                guard.reset()
                 if ev[0] == "run":
                     try:
                         loop.run_once()
@@ -201,6 +203,9 @@ def execute(ch, workload):
     return obs
 
 
+execute.guard = None
+
+
 def judge(workload, ch, obs, res):
     sizes, n_initial, may_cancel = workload
     case = dict(workload=workload, choices=list(ch.choices))
@@ -212,7 +217,7 @@ def judge(workload, ch, obs, res):
     oversize = [j for j, n in enumerate(sizes) if n > 1472]
     if obs["stall"]:
         kf = KF_STALL if oversize and "within one loop" in obs["stall"] \
-            else None
+            and "tasks spawned" in obs["stall"] else None
         bad("no stall", obs["stall"], "master stalls", kf)
         return
     # --- what went onto the wire
